@@ -35,7 +35,10 @@ BANNED = (
     "4096-octet windows; work done in passes of 2^14 / 2^16 words; unstable sort with equal keys; layout autodetection where a "
     "length equals an identifier; integer-multiplication tricks for carry-less products; hidden call counters in spare bits; "
     "unit mix-ups (hex characters vs octets); regional numbering rules for PLMNs; label order assumptions in realms; String() "
-    "methods that panic in error paths; USSD-style padding; lazily built tables without synchronisation; hand-written hash sets."
+    "methods that panic in error paths; USSD-style padding; lazily built tables without synchronisation; hand-written hash sets; "
+    "bytes.Buffer AvailableBuffer misuse; append onto a caller's slice with spare capacity; case folding that changes UTF-8 "
+    "length; removal by content instead of position; sort.SliceIsSorted non-strictness; saturating counters; stale pointers "
+    "into a slice across append; DST amounts derived from zone history; calendar fixes in setters; shortcuts for zero operands."
 )
 
 DEFAULT_THEME = (
